@@ -84,6 +84,7 @@ type Env struct {
 	BlockPartSize int
 	BlockSize     int
 	AuthByCA      bool // certificate-authority admission of peers (C20)
+	RealTicker    bool // leave the production timeout ticker in place (timeouts fire on the simulated clock by themselves)
 	Timeouts      [7]int // propose, proposeDelta, prevote, prevoteDelta, precommit, precommitDelta, commit
 	Plugins       string
 }
@@ -186,7 +187,7 @@ func (nd *Node) conf(env *Env) *viper.Viper {
 	c.Set("mempool_wal_dir", "")
 	c.Set("mempool_recheck", false)
 	c.Set("mempool_enable_txs_limits", false)
-	c.Set("mempool_broadcast", false)
+	c.Set("mempool_broadcast", env.RealTicker)
 	c.Set("pex_reactor", false)
 	c.Set("auth_by_ca", env.AuthByCA)
 	c.Set("non_validator_node_auth", false)
@@ -250,8 +251,10 @@ func (inc *Inc) Build(env *Env) {
 	if r := sw.Reactor("CONSENSUS"); r != nil {
 		inc.ConR = r.(*pbft.ConsensusReactor)
 	}
-	inc.Ticker = pbft.NewVerifTicker()
-	inc.CS.SetTimeoutTicker(inc.Ticker)
+	if !env.RealTicker {
+		inc.Ticker = pbft.NewVerifTicker()
+		inc.CS.SetTimeoutTicker(inc.Ticker)
+	}
 	if err := app.Start(); err != nil {
 		panic(fmt.Sprintf("app.Start: %v", err))
 	}
